@@ -503,7 +503,7 @@ func (a *Act) callMods(li *loopInfo, m *modSet, c ssa.CallInstruction, depth int
 								m.heap(h, traceSorts[h]).unknown = true
 							}
 							for h, srt := range a.u.heapSort {
-								if strings.HasPrefix(h, "T_arg_") || strings.HasPrefix(h, "T_res_") {
+								if strings.HasPrefix(h, "T_arg_") || strings.HasPrefix(h, "T_res") || strings.HasPrefix(h, "T_recv_") {
 									m.heap(h, srt).unknown = true
 								}
 							}
@@ -519,7 +519,7 @@ func (a *Act) callMods(li *loopInfo, m *modSet, c ssa.CallInstruction, depth int
 					m.heap(h, traceSorts[h]).unknown = true
 				}
 				for h, srt := range a.u.heapSort {
-					if strings.HasPrefix(h, "T_arg_") || strings.HasPrefix(h, "T_res_") {
+					if strings.HasPrefix(h, "T_arg_") || strings.HasPrefix(h, "T_res") || strings.HasPrefix(h, "T_recv_") {
 						m.heap(h, srt).unknown = true
 					}
 				}
